@@ -496,6 +496,20 @@ def generate(repo):
     need(n_copy == 4, f'decompress_to_ntf: expected 4 read/write_all copy loops (tar, bz2, gz, lz4), found {n_copy}')
     L.append('/-- `decompress_to_ntf`: buffer of the copy loops -/')
     L.append(f'def NTF_BUF_SZ : Nat := {int_lit(m.group(1))}')
+    # every `break` of the function: the tar member search stops at the member found; each of the four copy loops may
+    # only stop on a read of 0 bytes. A loop that also stops on a SHORT read (`bytes_read < BUF_SZ`) truncates the
+    # temporary file whenever the decoder returns less than a full buffer before the end (lz4_flex never reads across
+    # a frame block boundary; seeded change C05-d)
+    fnt = flat(strip_trace(ntf))
+    brks = [fnt[max(0, mm.start() - 48):mm.end()] for mm in re.finditer(r'\bbreak\b', fnt)]
+    zero = [b for b in brks if re.search(r'if (?:bytes_read|num_bytes) == 0 \{ break$', b) or re.search(r'Ok\(0\) => (?:\{ )?break$', b)]
+    member = [b for b in brks if re.search(r'entry_opt = Some\(entry\); break$', b)]
+    need(len(member) == 1, f'decompress_to_ntf: expected one `break` at the tar member found, found {len(member)}')
+    need(len(zero) == 4, f'decompress_to_ntf: expected 4 copy loops stopping on a read of 0 bytes, found {len(zero)}')
+    only_eof = len(brks) == len(zero) + len(member)
+    L.append('/-- `decompress_to_ntf`: the copy loops stop ONLY on a read of 0 bytes (`true`); `false`: some loop has a further')
+    L.append('`break` (e.g. on a read shorter than the buffer) -/')
+    L.append(f'def NTF_COPY_STOPS_ONLY_AT_EOF : Bool := {"true" if only_eof else "false"}')
     L.append('')
     L.append('/-! ### which files are one-way streams, and what the readers above do about it -/')
     L.append('')
